@@ -390,10 +390,12 @@ def r2(ctx):
             raise Unestablished("%s: expected one walk over the layers building the state placeholders, found %d" % (fpath, len(walks)), c.loc(fn))
         lid, S_ = walks[0]
         it = S_["iter"]
-        rv = e6.is_call(it, "rev", 1)
-        ctx.check("R08.2", "%s:reverse-order" % short_n, rv is not None and rv[0] == ("field", ("p", "self"), "layers"), "state-order:" + short(e6.show(it, 2), 50), c.loc(fn),
+        sw = e6.seq_walk(it, lid, ("field", ("p", "self"), "layers"))
+        el = e6.walk_element(S_["paths"], sw["rev"]) if sw and sw["rev"] else None
+        ctx.check("R08.2", "%s:reverse-order" % short_n, el is not None, "state-order:" + short(e6.show(it, 2), 50), c.loc(fn),
                   "state allocated in reverse layer order (matches the update walk)")
-        el = ("elem", it, lid)
+        if el is None:
+            continue
         for kind, pty in (("Dense", "dense::Dense"), ("Convolution", "convolution::Convolution"), ("Deconvolution", "deconvolution::Deconvolution")):
             vp = "network::Layer::" + kind
             mine = [p_ for p_ in S_["paths"] if p_.exit is None and e6.variant_of(p_).get(el) == vp]
@@ -470,6 +472,7 @@ def r3(ctx):
         paths = [p for p in E.run_fn() if p.exit is None or p.exit[0] == "return"]
         seen = {}
         first_ok = None
+        chain_seen = []
         for p in paths:
             # the shape handed to the created layer(s)
             if created is not None:
@@ -497,6 +500,28 @@ def r3(ctx):
                 if inputs is None:
                     seen.setdefault("?", []).append("cannot locate the shape flowing into the block")
                     continue
+                # inside the block: after each created layer the running shape becomes THAT layer's outputs
+                for e in p.eff:
+                    if not (e[0] == "loop" and E.loop_summaries[e[1]].get("kind") == "for"):
+                        continue
+                    for bp in E.loop_summaries[e[1]]["paths"]:
+                        crs = e6.find_terms(tuple(x for x in bp.eff if x[0] == "push"), lambda t: t[0] == "call" and t[1].endswith("::create"))
+                        if not crs or bp.exit is not None:
+                            continue
+                        sets = [x for x in bp.eff if x[0] == "set" and x[1] == ("local", nm)]
+                        good = len(crs) == 1 and len(sets) == 1
+                        if good:
+                            v_ = _strip_upd(sets[0][2])
+                            cr_ = _strip_upd(crs[0])
+                            wrapped = [t for t in e6.find_terms(tuple(x for x in bp.eff if x[0] == "push"), lambda t: t[0] == "call" and t[1].startswith("network::Layer::") and len(t[2]) == 1 and _strip_upd(t[2][0]) == cr_)]
+                            good = v_ == ("field", cr_, "outputs") or (acc_ok and any(v_ == ("call", "network::Layer::outputs", (_strip_upd(w_),)) for w_ in wrapped))
+                        kind_ = crs[0][1].split("::")[-2]
+                        if (kind_, good) in chain_seen:
+                            continue
+                        chain_seen.append((kind_, good))
+                        ctx.check("R08.3", "feedback:in-block-chaining:%s" % crs[0][1].split("::")[-2], good, "in-block-chaining:" + short(e6.show(sets[0][2], 2) if sets else "-", 60),
+                                  c.loc(fn, E.loop_summaries[e[1]]["node"]), "inside a block the next layer's inputs are the previous created layer's outputs",
+                                  "Network::feedback: after creating %s the running shape becomes %s" % (crs[0][1], e6.show(sets[0][2], 3)[:160] if sets else "(unchanged)"))
             # which situation is this path about?
             lastv = [(t, pol) for (t, pol) in p.pc if isinstance(t, tuple) and t[0] == "is" and t[2].startswith("network::Layer::") and pol]
             if not lastv:
@@ -550,7 +575,7 @@ def r3(ctx):
         for w in seen.get("?", []):
             ctx.bad("R08.3", b + ":paths", "unclassified-path", c.loc(fn), w)
         ctx.check("R08.3", b + ":first-layer", first_ok is True, "first-layer-input", c.loc(fn), "first layer takes self.input")
-    ctx.floor("R08.3", 25 + 5, "5 builders x 5 variants + 5 first-layer facts")
+    ctx.floor("R08.3", 25 + 5 + 4, "5 builders x 5 variants + 5 first-layer facts + 4 in-block chaining facts")
 
 
 SIZE_FNS = ["convolution::Convolution::calculate_output_size", "deconvolution::Deconvolution::calculate_output_size", "maxpool::Maxpool::calculate_output_size",
